@@ -210,3 +210,20 @@ func intRange(t types.Type) (lo, hi string, bits int, signed bool, ok bool) {
 	ok = false
 	return
 }
+
+type types_Struct = types.Struct
+
+func typesPointer(t types.Type) types.Type { return types.NewPointer(t) }
+
+func fieldIndex(t types.Type, name string) int {
+	s, ok := under(t).(*types.Struct)
+	if !ok {
+		return -1
+	}
+	for i := 0; i < s.NumFields(); i++ {
+		if s.Field(i).Name() == name {
+			return i
+		}
+	}
+	return -1
+}
